@@ -9,6 +9,7 @@ rk4
 implicit or backwardeuler
 trapezoidal or cranknicolson
 """
+import copy
 import math
 import sys
 import time
@@ -293,7 +294,8 @@ class timemodel(_coreiterative):
             if isave < nsave: # specific step to save result and go back to Qn
                 while isave < nsave and self.Qn.time+mindtloc >= tsave[isave]: # every save time reached by this step
                     # compute smaller step with same integrator
-                    self.step(Qnn, tsave[isave]-self.Qn.time)
+                    # (on a throw-away copy of the integrator: the snapshot must not disturb its internal state)
+                    copy.copy(self).step(Qnn, tsave[isave]-self.Qn.time)
                     Qnn.it = self._itstart + self._nit
                     results.append(Qnn)
                     if verbose:
